@@ -216,7 +216,7 @@ def run_C12(ctx):
 def run_C13(ctx):
     agg = new_agg()
     q = ctx.quick
-    consts = dict(Types=Raw('{"", "a", "b"}'), MaxCbs=3 if q else 4, MaxOps=7 if q else 9)
+    consts = dict(Types=Raw('{"", "a", "NUL"}' if q else '{"", "a", "b", "NUL"}'), MaxCbs=3 if q else 4, MaxOps=7 if q else 9)   # "NUL": the event type "\x00"
     d = core.write_mc(ctx, "DispatchGen", "Dispatch", consts, invariants=["Routing", "Export"], properties=["RemovedStaysRemoved", "OthersUnaffected"], view="View")
     r = core.run_tlc(ctx, d, "DispatchGen", timeout=3000)
     beh = os.path.join(ctx.work, "beh-dispatch.ndjson")
